@@ -1,1 +1,465 @@
-/- property theorems for C08 (filled in below) -/
+/-
+C08 — Coxeter group representations satisfy the relations and preserve the form.
+Only property theorems and non-vacuity examples live here; helper lemmas are in
+`GT.Lemmas.Coxeter`.  Model: `GT.Model.Coxeter` (`refl`, `geomRep`, `canonRep`, `hypRep`,
+`cosineForm`, `wordProd`).
+
+Every theorem is for every rank `n`.  The algebraic ones hold over every commutative ring
+(so in particular over ℝ, over ℚ where the driver executes the same definitions, and over the
+float-converted cosines the correspondence feeds in); the statements that mention
+`cos(π/m)` are over ℝ.
+-/
+import GT.Lemmas.Coxeter
+import Mathlib.Tactic.NormNum
+import Mathlib.Tactic.FinCases
+import Mathlib.Analysis.SpecialFunctions.Trigonometric.Inverse
+import Mathlib.Analysis.SpecialFunctions.Sqrt
+import Mathlib.Tactic.Positivity
+
+open Matrix Finset
+
+namespace GT.C08
+open GT.Cox
+
+section ring
+variable {R : Type*} [CommRing R] {n : ℕ}
+
+/-! ## generators are involutions -/
+
+/-- `(refl C i)² = 1` for every Cartan matrix (`C_ii = 2`): every generator of
+`cartan_representation`, hence of `tits_vinberg_rep`, is an involution -/
+theorem refl_sq (C : Matrix (Fin n) (Fin n) R) (i : Fin n) (h : C i i = 2) :
+    refl C i * refl C i = 1 := refl_sq' C i h
+
+/-- generators of the geometric representation are involutions (`B_ii = 1`) -/
+theorem geomRep_sq (B : Matrix (Fin n) (Fin n) R) (i : Fin n) (h : B i i = 1) :
+    geomRep B i * geomRep B i = 1 :=
+  refl_sq' _ i (by simp [h])
+
+/-- a generator is a reflection: determinant `-1` -/
+theorem refl_det (C : Matrix (Fin n) (Fin n) R) (i : Fin n) (h : C i i = 2) :
+    (refl C i).det = -1 := by rw [det_refl, h]; ring
+
+/-- a generator negates `e_i` and fixes the hyperplane `{v | C_i · v = 0}` pointwise -/
+theorem refl_reflection (C : Matrix (Fin n) (Fin n) R) (i : Fin n) (h : C i i = 2) :
+    refl C i *ᵥ Pi.single i 1 = -Pi.single i 1 ∧
+      ∀ v : Fin n → R, C i ⬝ᵥ v = 0 → refl C i *ᵥ v = v := by
+  refine ⟨?_, fun v hv => ?_⟩
+  · rw [refl_mulVec, row_dot_single, h]; module
+  · rw [refl_mulVec, hv]; simp
+
+/-! ## the geometric representation preserves the cosine form -/
+
+/-- `sᵢᵀ · B · sᵢ = B` for symmetric `B` with `B_ii = 1` -/
+theorem geom_preserves (B : Matrix (Fin n) (Fin n) R) (i : Fin n) (hs : Bᵀ = B) (hd : B i i = 1) :
+    (geomRep B i)ᵀ * B * geomRep B i = B := geom_preserves' B i hs hd
+
+/-- … hence so does the image of every word (`Representation._word_value`) -/
+theorem geom_preserves_word (B : Matrix (Fin n) (Fin n) R) (hs : Bᵀ = B) (hd : ∀ i, B i i = 1)
+    (w : List (Fin n)) : (wordProd (geomRep B) w)ᵀ * B * wordProd (geomRep B) w = B := by
+  unfold wordProd
+  suffices ∀ acc : Matrix (Fin n) (Fin n) R, accᵀ * B * acc = B →
+      (w.foldl (fun acc g => acc * geomRep B g) acc)ᵀ * B * w.foldl (fun acc g => acc * geomRep B g) acc = B by
+    exact this 1 (by simp)
+  induction w with
+  | nil => intro acc h; exact h
+  | cons g w ih =>
+    intro acc h
+    apply ih
+    rw [transpose_mul]
+    calc (geomRep B g)ᵀ * accᵀ * B * (acc * geomRep B g)
+        = (geomRep B g)ᵀ * (accᵀ * B * acc) * geomRep B g := by simp only [mul_assoc]
+      _ = B := by rw [h, geom_preserves B g hs (hd g)]
+
+/-- the cosine matrix of a Coxeter matrix is symmetric with unit diagonal
+(`cs x` stands for `cos(π/x)`; only `cos π = -1` is used) -/
+theorem cosineForm_symm_diag (cs : ℚ → R) (M : Matrix (Fin n) (Fin n) ℤ) (hM : Mᵀ = M)
+    (hd : ∀ i, M i i = 1) (h1 : cs 1 = -1) :
+    (cosineForm cs M)ᵀ = cosineForm cs M ∧ ∀ i, cosineForm cs M i i = 1 := by
+  constructor
+  · ext i j
+    have : M j i = M i j := congrFun (congrFun hM i) j
+    simp [cosineForm, this]
+  · intro i; simp [cosineForm, hd i, h1]
+
+/-! ## the canonical representation is the dual of the geometric one -/
+
+/-- `canonical_representation()[w] = ((geometric_representation()[w])ᵀ)⁻¹` for every word -/
+theorem canon_is_dual (B : Matrix (Fin n) (Fin n) R) (w : List (Fin n)) :
+    wordProd (canonRep B) w = dualMat (wordProd (geomRep B) w) :=
+  wordProd_map_hom dualMat dualMat_one dualMat_mul (geomRep B) w
+
+/-- the dual generator is the transpose (a generator is its own inverse); this is the form
+the driver executes -/
+theorem canonRep_eq_transpose (B : Matrix (Fin n) (Fin n) R) (i : Fin n) (h : B i i = 1) :
+    canonRep B i = (geomRep B i)ᵀ := by
+  unfold canonRep dualMat
+  apply Matrix.inv_eq_left_inv
+  rw [← transpose_mul, geomRep_sq B i h, transpose_one]
+
+/-- any relation `ρ(w) = 1` of the geometric representation holds in the canonical one -/
+theorem canon_relation (B : Matrix (Fin n) (Fin n) R) (w : List (Fin n))
+    (h : wordProd (geomRep B) w = 1) : wordProd (canonRep B) w = 1 := by
+  rw [canon_is_dual, h, dualMat_one]
+
+/-! ## the braid relations -/
+
+/-- with `P = sᵢsⱼ`, `t = C_ij·C_ji - 2`: `(P² - tP + 1)(P - 1) = 0`, over every commutative
+ring and for every rank (the image of `P - 1` lies in `span(eᵢ, eⱼ)`, on which `P` has
+trace `t` and determinant `1`) -/
+theorem braid_core (C : Matrix (Fin n) (Fin n) R) (i j : Fin n) (hi : C i i = 2) (hj : C j j = 2) :
+    quad (refl C i * refl C j) (C i j * C j i - 2) * (refl C i * refl C j - 1) = 0 :=
+  braid_core' C i j hi hj
+
+/-- general criterion: if the Chebyshev-type sequence of `t = C_ij·C_ji - 2` has vanishing
+period sums over `m` steps then `(sᵢsⱼ)^m = 1` -/
+theorem braid_of_cheb (C : Matrix (Fin n) (Fin n) R) (i j : Fin n) (hi : C i i = 2) (hj : C j j = 2)
+    (m : ℕ) (h1 : ∑ k ∈ range m, cheb (C i j * C j i - 2) (k + 1) = 0)
+    (h0 : ∑ k ∈ range m, cheb (C i j * C j i - 2) k = 0) :
+    (refl C i * refl C j) ^ m = 1 :=
+  pow_eq_one_of_cheb _ _ (braid_core C i j hi hj) m h1 h0
+
+/-- label 2: `C_ij = C_ji = 0` ⇒ the generators commute and `(sᵢsⱼ)² = 1` -/
+theorem braid_two (C : Matrix (Fin n) (Fin n) R) (i j : Fin n) (hi : C i i = 2) (hj : C j j = 2)
+    (hij : C i j = 0) (hji : C j i = 0) : (refl C i * refl C j) ^ 2 = 1 := by
+  have hc : refl C i * refl C j = refl C j * refl C i := by
+    apply mulVec_injective
+    funext v
+    rw [P_mulVec, P_mulVec, hij, hji]
+    module
+  calc (refl C i * refl C j) ^ 2 = refl C i * (refl C j * refl C i) * refl C j := by
+        rw [pow_two]; simp only [mul_assoc]
+    _ = refl C i * refl C i * (refl C j * refl C j) := by rw [← hc]; simp only [mul_assoc]
+    _ = 1 := by rw [refl_sq' C i hi, refl_sq' C j hj, one_mul]
+
+/-- labels 3, 4, 6: `C_ij·C_ji = 1, 2, 3` ⇒ `(sᵢsⱼ)^m = 1` for `m = 3, 4, 6`, over every
+commutative ring -/
+theorem braid_small (C : Matrix (Fin n) (Fin n) R) (i j : Fin n) (hi : C i i = 2) (hj : C j j = 2) :
+    (C i j * C j i = 1 → (refl C i * refl C j) ^ 3 = 1) ∧
+    (C i j * C j i = 2 → (refl C i * refl C j) ^ 4 = 1) ∧
+    (C i j * C j i = 3 → (refl C i * refl C j) ^ 6 = 1) := by
+  refine ⟨fun h => ?_, fun h => ?_, fun h => ?_⟩ <;>
+  · apply braid_of_cheb C i j hi hj <;>
+    · rw [h]; simp only [Finset.sum_range_succ, Finset.sum_range_zero, cheb]; ring
+
+/-- label 5: `t = C_ij·C_ji - 2` a root of `t² + t - 1` (i.e. `t = 2cos(2π/5)`) ⇒ `(sᵢsⱼ)⁵ = 1` -/
+theorem braid_five (C : Matrix (Fin n) (Fin n) R) (i j : Fin n) (hi : C i i = 2) (hj : C j j = 2)
+    (h : (C i j * C j i - 2) ^ 2 + (C i j * C j i - 2) - 1 = 0) :
+    (refl C i * refl C j) ^ 5 = 1 := by
+  apply braid_of_cheb C i j hi hj <;>
+  · simp only [Finset.sum_range_succ, Finset.sum_range_zero, cheb]
+    generalize C i j * C j i - 2 = t at h
+    first
+    | linear_combination h
+    | linear_combination t * h
+
+/-- relations survive conjugation by the diagonalising pair (`Winv * W = 1`):
+`(Winv·M·W)^k = Winv·M^k·W` -/
+theorem conj_pow (W Winv M : Matrix (Fin n) (Fin n) R) (h : Winv * W = 1) (k : ℕ) :
+    (conjMat W Winv M) ^ k = conjMat W Winv (M ^ k) := by
+  induction k with
+  | zero => rw [pow_zero, pow_zero, conjMat_one W Winv h]
+  | succ k ih => rw [pow_succ, pow_succ, ih, conjMat_mul W Winv _ _ h]
+
+/-- relations survive dualising: `dual(M)^k = dual(M^k)` -/
+theorem dual_pow (M : Matrix (Fin n) (Fin n) R) (k : ℕ) : (dualMat M) ^ k = dualMat (M ^ k) := by
+  induction k with
+  | zero => rw [pow_zero, pow_zero, dualMat_one]
+  | succ k ih => rw [pow_succ, pow_succ, ih, dualMat_mul]
+
+/-- so every relation `(sᵢsⱼ)^m = 1` / `sᵢ² = 1` of the geometric representation holds in the
+canonical and in the diagonalised (hyperbolic) representation -/
+theorem relations_transfer (B W Winv : Matrix (Fin n) (Fin n) R) (hW : Winv * W = 1) (i j : Fin n)
+    (m : ℕ) (h : (geomRep B i * geomRep B j) ^ m = 1) :
+    (canonRep B i * canonRep B j) ^ m = 1 ∧ (hypRep B W Winv i * hypRep B W Winv j) ^ m = 1 := by
+  constructor
+  · unfold canonRep; rw [← dualMat_mul, dual_pow, h, dualMat_one]
+  · unfold hypRep; rw [← conjMat_mul _ _ _ _ hW, conj_pow _ _ _ hW, h, conjMat_one _ _ hW]
+
+/-! ## the hyperbolic representation lies in `O(J)` and its generators are reflections -/
+
+/-- `Wᵀ B W = J` (the `diagonalize_form` contract) ⇒ every generator of `hyperbolic_rep`
+preserves `J` -/
+theorem hypRep_in_O (B W Winv J : Matrix (Fin n) (Fin n) R) (hs : Bᵀ = B) (hd : ∀ i, B i i = 1)
+    (hW : Winv * W = 1) (hJ : Wᵀ * B * W = J) (i : Fin n) :
+    (hypRep B W Winv i)ᵀ * J * hypRep B W Winv i = J :=
+  conjMat_iso W Winv B J _ hW hJ (geom_preserves B i hs (hd i))
+
+/-- … and so does the image of every word -/
+theorem hypRep_word_in_O (B W Winv J : Matrix (Fin n) (Fin n) R) (hs : Bᵀ = B) (hd : ∀ i, B i i = 1)
+    (hW : Winv * W = 1) (hJ : Wᵀ * B * W = J) (w : List (Fin n)) :
+    (wordProd (hypRep B W Winv) w)ᵀ * J * wordProd (hypRep B W Winv) w = J := by
+  have e : wordProd (hypRep B W Winv) w = conjMat W Winv (wordProd (geomRep B) w) :=
+    wordProd_map_hom (conjMat W Winv) (conjMat_one W Winv hW) (fun A B => conjMat_mul W Winv A B hW) _ w
+  rw [e]
+  exact conjMat_iso W Winv B J _ hW hJ (geom_preserves_word B hs hd w)
+
+/-- a generator of `hyperbolic_rep` is the `J`-reflection in the unit spacelike vector
+`x = Winv·eᵢ`: `J(x,x) = 1`, `x ↦ -x`, every `y` with `J(x,y) = 0` is fixed, `det = -1` -/
+theorem hypRep_reflection (B W Winv J : Matrix (Fin n) (Fin n) R) (hd : ∀ i, B i i = 1)
+    (hW : Winv * W = 1) (hJ : Wᵀ * B * W = J) (i : Fin n) :
+    let x := Winv *ᵥ Pi.single i 1
+    x ⬝ᵥ (J *ᵥ x) = 1 ∧ hypRep B W Winv i *ᵥ x = -x ∧
+      (∀ y : Fin n → R, x ⬝ᵥ (J *ᵥ y) = 0 → hypRep B W Winv i *ᵥ y = y) ∧
+      (hypRep B W Winv i).det = -1 := by
+  intro x
+  have hW' : W * Winv = 1 := mul_eq_one_comm.1 hW
+  have hC : ((2 : R) • B) i i = 2 := by simp [hd i]
+  have hJx : ∀ y, x ⬝ᵥ (J *ᵥ y) = B i ⬝ᵥ (W *ᵥ y) := by
+    intro y
+    have : J *ᵥ y = Wᵀ *ᵥ (B *ᵥ (W *ᵥ y)) := by rw [← hJ]; simp only [mulVec_mulVec, mul_assoc]
+    rw [this, dotProduct_mulVec, vecMul_transpose, mulVec_mulVec, hW', one_mulVec,
+      single_one_dotProduct]
+    have : (B *ᵥ (W *ᵥ y)) i = B i ⬝ᵥ (W *ᵥ y) := rfl
+    exact this
+  have hWx : W *ᵥ x = Pi.single i 1 := by rw [mulVec_mulVec, hW', one_mulVec]
+  refine ⟨?_, ?_, ?_, ?_⟩
+  · rw [hJx, hWx, row_dot_single, hd]
+  · unfold hypRep conjMat geomRep
+    rw [← mulVec_mulVec, hWx, ← mulVec_mulVec, (refl_reflection _ i hC).1, mulVec_neg]
+  · intro y hy
+    rw [hJx] at hy
+    unfold hypRep conjMat geomRep
+    rw [← mulVec_mulVec, ← mulVec_mulVec, (refl_reflection _ i hC).2 (W *ᵥ y), mulVec_mulVec, hW,
+      one_mulVec]
+    show ((2 : R) • B) i ⬝ᵥ (W *ᵥ y) = 0
+    have : ((2 : R) • B) i = (2 : R) • B i := rfl
+    rw [this, smul_dotProduct, hy, smul_zero]
+  · unfold hypRep conjMat geomRep
+    rw [det_mul, det_mul, refl_det _ i hC, mul_comm (Winv.det), mul_assoc, ← det_mul, hW, det_one]
+    ring
+
+/-- an involution is its own inverse, so its dual is its transpose (what the driver executes for
+`canonical_representation(diagonalize=True)`) -/
+theorem dualMat_of_involution (M : Matrix (Fin n) (Fin n) R) (h : M * M = 1) : dualMat M = Mᵀ := by
+  unfold dualMat
+  apply Matrix.inv_eq_left_inv
+  rw [← transpose_mul, h, transpose_one]
+
+/-- `cartan_matrix(parameters)` keeps the diagonal `2` and every entry whose label (in either order)
+is non-negative; so `tits_vinberg_rep` satisfies `refl_sq` and the braid theorems at every finite label -/
+theorem cartanMatrix_spec [DecidableEq R] (B : Matrix (Fin n) (Fin n) R) (M : Matrix (Fin n) (Fin n) ℤ)
+    (P : Matrix (Fin n) (Fin n) R) (i j : Fin n) (hij : 0 ≤ M i j) (hji : 0 ≤ M j i) :
+    cartanMatrix B M P i j = 2 * B i j := by
+  unfold cartanMatrix
+  rw [if_neg (by omega), if_neg (by omega)]
+  simp
+
+end ring
+
+/-! ## every finite label, over ℝ -/
+
+/-- **braid relation for every finite label** `m ≥ 2` over ℝ: if `C_ii = C_jj = 2` and
+`C_ij·C_ji = 4cos²(π/m)` (and `C_ij = C_ji = 0` when `m = 2`) then `(sᵢsⱼ)^m = 1`.
+Route: `braid_core` ⇒ `P^k(P-1) = v_{k+1}·P(P-1) - v_k·(P-1)` for the Chebyshev recursion,
+`v_k·sin θ = sin((k-1)θ)` at `θ = 2π/m`, period sums vanish, geometric sum. -/
+theorem braid_all {n : ℕ} (C : Matrix (Fin n) (Fin n) ℝ) (i j : Fin n) (hi : C i i = 2) (hj : C j j = 2)
+    (m : ℕ) (hm : 2 ≤ m) (hc : C i j * C j i = 4 * Real.cos (Real.pi / m) ^ 2)
+    (h2 : m = 2 → C i j = 0 ∧ C j i = 0) :
+    (refl C i * refl C j) ^ m = 1 := by
+  rcases Nat.eq_or_lt_of_le hm with rfl | hm3
+  · exact braid_two C i j hi hj (h2 rfl).1 (h2 rfl).2
+  · have ht : C i j * C j i - 2 = 2 * Real.cos (2 * Real.pi / m) := by
+      have : 2 * Real.pi / m = 2 * (Real.pi / m) := by ring
+      rw [hc, this, Real.cos_two_mul]; ring
+    obtain ⟨p1, p2, p3⟩ := cheb_period m hm3
+    obtain ⟨s1, s0⟩ := cheb_sums_zero _ m p3 p1 p2
+    exact braid_of_cheb C i j hi hj m (by rw [ht]; exact s1) (by rw [ht]; exact s0)
+
+/-- the statement of the property for the geometric representation of a Coxeter matrix, with
+the real cosine: generators are involutions preserving the cosine form, and
+`(sᵢsⱼ)^{M_ij} = 1` for every finite label -/
+theorem geometric_representation_real {n : ℕ} (M : Matrix (Fin n) (Fin n) ℤ) (hM : Mᵀ = M)
+    (hd : ∀ i, M i i = 1) :
+    let B := cosineForm (fun x : ℚ => Real.cos (Real.pi / (x : ℝ))) M
+    (∀ i, geomRep B i * geomRep B i = 1) ∧
+    (∀ i, (geomRep B i)ᵀ * B * geomRep B i = B) ∧
+    (∀ i j, 2 ≤ M i j → (geomRep B i * geomRep B j) ^ (M i j).toNat = 1) := by
+  intro B
+  have h1 : (fun x : ℚ => Real.cos (Real.pi / (x : ℝ))) 1 = -1 := by simp
+  obtain ⟨hs, hdiag⟩ : Bᵀ = B ∧ ∀ i, B i i = 1 := cosineForm_symm_diag (R := ℝ) (fun x : ℚ => Real.cos (Real.pi / (x : ℝ))) M hM hd h1
+  refine ⟨fun i => geomRep_sq B i (hdiag i), fun i => geom_preserves B i hs (hdiag i), ?_⟩
+  intro i j hij
+  have hBij : ∀ a b, 2 ≤ M a b → B a b = -Real.cos (Real.pi / ((M a b).toNat : ℝ)) := by
+    intro a b hab
+    have h0 : ¬ M a b ≤ 0 := by omega
+    have hc : ((M a b).toNat : ℝ) = ((M a b : ℚ) : ℝ) := by
+      have : ((M a b).toNat : ℤ) = M a b := Int.toNat_of_nonneg (by omega)
+      rw [Rat.cast_intCast]
+      exact_mod_cast this
+    show cosineForm _ M a b = _
+    simp only [cosineForm, h0, if_false, hc]
+    ring
+  have hji : 2 ≤ M j i := by
+    have : M j i = M i j := congrFun (congrFun hM i) j
+    rw [this]; exact hij
+  have hmm : (M j i).toNat = (M i j).toNat := by
+    have : M j i = M i j := congrFun (congrFun hM i) j
+    rw [this]
+  have hm2 : 2 ≤ (M i j).toNat := by omega
+  apply braid_all ((2 : ℝ) • B) i j (by simp [hdiag i]) (by simp [hdiag j]) _ hm2
+  · simp only [Matrix.smul_apply, smul_eq_mul]
+    rw [hBij i j hij, hBij j i hji, hmm]; ring
+  · intro h
+    simp only [Matrix.smul_apply, smul_eq_mul]
+    rw [hBij i j hij, hBij j i hji, hmm, h]
+    have : Real.cos (Real.pi / ((2 : ℕ) : ℝ)) = 0 := by
+      have : Real.pi / ((2 : ℕ) : ℝ) = Real.pi / 2 := by norm_num
+      rw [this, Real.cos_pi_div_two]
+    rw [this]; simp
+
+
+/-- **exact order** over ℝ: under the hypotheses of `braid_all` and `i ≠ j`, no smaller positive
+power of `sᵢsⱼ` is the identity -/
+theorem order_exact {n : ℕ} (C : Matrix (Fin n) (Fin n) ℝ) (i j : Fin n) (hij : i ≠ j)
+    (hi : C i i = 2) (hj : C j j = 2) (m : ℕ) (hm : 2 ≤ m)
+    (hc : C i j * C j i = 4 * Real.cos (Real.pi / m) ^ 2) (k : ℕ) (hk0 : 0 < k) (hkm : k < m) :
+    (refl C i * refl C j) ^ k ≠ 1 := order_exact' C i j hij hi hj m hm hc k hk0 hkm
+
+/-- … and the same for the canonical (dual) representation: `sᵢsⱼ` has order **exactly** `m` there -/
+theorem canon_order_exact {n : ℕ} (B : Matrix (Fin n) (Fin n) ℝ) (i j : Fin n) (hij : i ≠ j)
+    (hi : B i i = 1) (hj : B j j = 1) (m : ℕ) (hm : 2 ≤ m)
+    (hc : (2 * B i j) * (2 * B j i) = 4 * Real.cos (Real.pi / m) ^ 2)
+    (h2 : m = 2 → B i j = 0 ∧ B j i = 0) :
+    (canonRep B i * canonRep B j) ^ m = 1 ∧
+      ∀ k, 0 < k → k < m → (canonRep B i * canonRep B j) ^ k ≠ 1 := by
+  have hCi : ((2 : ℝ) • B) i i = 2 := by simp [hi]
+  have hCj : ((2 : ℝ) • B) j j = 2 := by simp [hj]
+  have hCc : ((2 : ℝ) • B) i j * ((2 : ℝ) • B) j i = 4 * Real.cos (Real.pi / m) ^ 2 := by
+    simpa [Matrix.smul_apply] using hc
+  have hpow : (geomRep B i * geomRep B j) ^ m = 1 :=
+    braid_all _ i j hCi hCj m hm hCc (fun h => by
+      obtain ⟨a, b⟩ := h2 h; simp [Matrix.smul_apply, a, b])
+  have hdual : ∀ k, (canonRep B i * canonRep B j) ^ k = dualMat ((geomRep B i * geomRep B j) ^ k) := by
+    intro k; unfold canonRep; rw [← dualMat_mul, dual_pow]
+  refine ⟨by rw [hdual, hpow, dualMat_one], fun k hk0 hkm hk => ?_⟩
+  rw [hdual] at hk
+  apply order_exact _ i j hij hCi hCj m hm hCc k hk0 hkm
+  -- `((P^k)ᵀ)⁻¹ = 1` with `P^k` invertible gives `P^k = 1`
+  set X := (refl ((2 : ℝ) • B) i * refl ((2 : ℝ) • B) j) ^ k with hX
+  have hdet : IsUnit X.det := by
+    rw [hX, det_pow, det_mul, refl_det _ i hCi, refl_det _ j hCj]; simp
+  have hdetT : IsUnit Xᵀ.det := by rw [det_transpose]; exact hdet
+  have h1 : Xᵀ = 1 := by
+    have := Matrix.mul_nonsing_inv Xᵀ hdetT
+    unfold dualMat geomRep at hk
+    rw [← hX] at hk
+    rw [hk, mul_one] at this
+    exact this
+  have : X = Xᵀᵀ := (transpose_transpose X).symm
+  rw [this, h1, transpose_one]
+
+
+/-- the statement of the property for the canonical (Tits) representation of a Coxeter matrix, with
+the real cosine: generators are involutions and `sᵢsⱼ` has order **exactly** `M_ij` for every finite
+label -/
+theorem canonical_representation_real {n : ℕ} (M : Matrix (Fin n) (Fin n) ℤ) (hM : Mᵀ = M)
+    (hd : ∀ i, M i i = 1) :
+    let B := cosineForm (fun x : ℚ => Real.cos (Real.pi / (x : ℝ))) M
+    (∀ i, canonRep B i * canonRep B i = 1) ∧
+    (∀ i j, i ≠ j → 2 ≤ M i j → (canonRep B i * canonRep B j) ^ (M i j).toNat = 1 ∧
+      ∀ k, 0 < k → k < (M i j).toNat → (canonRep B i * canonRep B j) ^ k ≠ 1) := by
+  intro B
+  have h1 : (fun x : ℚ => Real.cos (Real.pi / (x : ℝ))) 1 = -1 := by simp
+  obtain ⟨hs, hdiag⟩ : Bᵀ = B ∧ ∀ i, B i i = 1 :=
+    cosineForm_symm_diag (R := ℝ) (fun x : ℚ => Real.cos (Real.pi / (x : ℝ))) M hM hd h1
+  have hBij : ∀ a b, 2 ≤ M a b → B a b = -Real.cos (Real.pi / ((M a b).toNat : ℝ)) := by
+    intro a b hab
+    have h0 : ¬ M a b ≤ 0 := by omega
+    have hc : ((M a b).toNat : ℝ) = ((M a b : ℚ) : ℝ) := by
+      have : ((M a b).toNat : ℤ) = M a b := Int.toNat_of_nonneg (by omega)
+      rw [Rat.cast_intCast]
+      exact_mod_cast this
+    show cosineForm _ M a b = _
+    simp only [cosineForm, h0, if_false, hc]
+    ring
+  refine ⟨fun i => ?_, fun i j hij hm => ?_⟩
+  · rw [canonRep_eq_transpose B i (hdiag i), ← transpose_mul, geomRep_sq B i (hdiag i), transpose_one]
+  · have hji : M j i = M i j := congrFun (congrFun hM i) j
+    have hm2 : 2 ≤ (M i j).toNat := by omega
+    apply canon_order_exact B i j hij (hdiag i) (hdiag j) _ hm2
+    · rw [hBij i j hm, hBij j i (by rw [hji]; exact hm), hji]; ring
+    · intro h
+      rw [hBij i j hm, hBij j i (by rw [hji]; exact hm), hji, h]
+      have : Real.cos (Real.pi / ((2 : ℕ) : ℝ)) = 0 := by
+        have : Real.pi / ((2 : ℕ) : ℝ) = Real.pi / 2 := by norm_num
+        rw [this, Real.cos_pi_div_two]
+      rw [this]; simp
+
+/-- **triangle angles.**  For the cosine form `B = form3 a b c` of a triangle group, let `ω_k` be the
+vertex fixed by `sᵢ` and `sⱼ` (hence by the rotation `sᵢsⱼ`), and `u, w` the directions at `ω_k`
+towards the other two vertices.  Then `B(u,w) = -B_ij · B(u,u)`, `B(w,w) = B(u,u) = det(B)⁴(1-B_ij²)`
+and `B(ω_k,ω_k) = det(B)(1-B_ij²)`: the interior angle has cosine `-B_ij = cos(π/m)`, and the vertex
+is ideal (lightlike) exactly when `B_ij² = 1`, i.e. for an infinite label. -/
+theorem triangle_angles {R : Type*} [CommRing R] (a b c : R) (i j k : Fin 3) (hij : i ≠ j) (hjk : j ≠ k)
+    (hik : i ≠ k) :
+    let B := form3 a b c
+    let u := tangent B (vertex B k) (vertex B j)
+    let w := tangent B (vertex B k) (vertex B i)
+    geomRep B i *ᵥ vertex B k = vertex B k ∧ geomRep B j *ᵥ vertex B k = vertex B k ∧
+      bil B u w = -B i j * bil B u u ∧ bil B w w = bil B u u ∧
+      bil B u u = B.det ^ 4 * (1 - B i j ^ 2) ∧ bil B (vertex B k) (vertex B k) = B.det * (1 - B i j ^ 2) := by
+  intro B u w
+  obtain ⟨t1, t2, t3, t4⟩ := triangle3 a b c B rfl i j k hij hjk hik
+  exact ⟨vertex_fixed B i k hik, vertex_fixed B j k hjk, t1, t2, t3, t4⟩
+
+/-- over ℝ, at a finite vertex (`B_ij² < 1`, non-degenerate form) the cosine of the interior angle,
+computed from the two directions, is `-B_ij`; with `B_ij = -cos(π/m)` the angle is `π/m` -/
+theorem triangle_angle_real (a b c : ℝ) (i j k : Fin 3) (hij : i ≠ j) (hjk : j ≠ k) (hik : i ≠ k)
+    (hdet : (form3 a b c).det ≠ 0) (hfin : (form3 a b c) i j ^ 2 < 1) :
+    let B := form3 a b c
+    let u := tangent B (vertex B k) (vertex B j)
+    let w := tangent B (vertex B k) (vertex B i)
+    bil B u w / Real.sqrt (bil B u u * bil B w w) = -B i j ∧
+      ∀ m : ℕ, 2 ≤ m → B i j = -Real.cos (Real.pi / m) →
+        Real.arccos (bil B u w / Real.sqrt (bil B u u * bil B w w)) = Real.pi / m := by
+  intro B u w
+  obtain ⟨_, _, t1, t2, t3, _⟩ := triangle_angles a b c i j k hij hjk hik
+  have hpos : 0 < bil B u u := by
+    rw [t3]
+    have : 0 < B.det ^ 4 := by positivity
+    have h1 : 0 < 1 - B i j ^ 2 := by linarith
+    positivity
+  have hcos : bil B u w / Real.sqrt (bil B u u * bil B w w) = -B i j := by
+    rw [t2, Real.sqrt_mul_self hpos.le, t1]
+    exact mul_div_cancel_right₀ _ hpos.ne'
+  refine ⟨hcos, fun m hm hB => ?_⟩
+  rw [hcos, hB, neg_neg]
+  apply Real.arccos_cos
+  · positivity
+  · have hm0 : (0 : ℝ) < m := by exact_mod_cast (by omega : 0 < m)
+    rw [div_le_iff₀ hm0]
+    have : (1 : ℝ) ≤ m := by exact_mod_cast (by omega : 1 ≤ m)
+    nlinarith [Real.pi_pos]
+
+/-! ## non-vacuity: concrete instances of the hypotheses -/
+
+/-- the (2,3,∞) form over ℚ: symmetric, unit diagonal, the generators are involutions and
+`(s₀s₁)³ = 1`, `(s₀s₂)² = 1` hold by the theorems above -/
+example :
+    let B : Matrix (Fin 3) (Fin 3) ℚ := !![1, -1/2, 0; -1/2, 1, -1; 0, -1, 1]
+    Bᵀ = B ∧ (∀ i, B i i = 1) ∧ (geomRep B 0 * geomRep B 1) ^ 3 = 1
+      ∧ (geomRep B 0 * geomRep B 2) ^ 2 = 1 := by
+  intro B
+  have hd : ∀ i, B i i = 1 := by intro i; fin_cases i <;> simp [B]
+  refine ⟨by ext i j; fin_cases i <;> fin_cases j <;> simp [B], hd, ?_, ?_⟩
+  · exact (braid_small ((2 : ℚ) • B) 0 1 (by simp [hd]) (by simp [hd])).1 (by simp [B]; norm_num)
+  · exact braid_two ((2 : ℚ) • B) 0 2 (by simp [hd]) (by simp [hd]) (by simp [B]) (by simp [B])
+
+/-- `braid_five` is not vacuous: over ℝ, `t = (√5 - 1)/2` -/
+example : ∃ t : ℝ, t ^ 2 + t - 1 = 0 := by
+  refine ⟨(Real.sqrt 5 - 1) / 2, ?_⟩
+  have := Real.sq_sqrt (show (0 : ℝ) ≤ 5 by norm_num)
+  nlinarith [this]
+
+/-- a diagonalising pair exists for the rank-2 form of label ∞ … no: that form is degenerate;
+for `B = 1` (label 2, rank 2) `W = Winv = 1`, `J = 1` satisfy the `hypRep` hypotheses -/
+example : (1 : Matrix (Fin 2) (Fin 2) ℚ) * 1 = 1 ∧ (1 : Matrix (Fin 2) (Fin 2) ℚ)ᵀ * 1 * 1 = 1 := by
+  simp
+
+/-- `triangle_angle_real` is not vacuous: the (2,3,7)-like numbers `a = 0, b = -1/2, c = -9/10` give a
+non-degenerate form with a finite vertex -/
+example : (form3 (0 : ℝ) (-1/2) (-9/10)).det ≠ 0 ∧ (form3 (0 : ℝ) (-1/2) (-9/10)) 0 1 ^ 2 < 1 := by
+  rw [det3]; constructor <;> norm_num [form3]
+
+end GT.C08
